@@ -517,9 +517,21 @@ pub fn fuzz_part() -> CustomPart {
                 return None;
             }
             let proj = nv_c20::root().join("fuzz_c20");
-            let runs: u64 = std::env::var("NV_FUZZ_RUNS").ok().and_then(|s| s.parse().ok()).unwrap_or(1_500_000) * cfg.scale_pct / 100;
+            // runs per target (file-backed decoders are slower); NV_FUZZ_RUNS overrides all
+            let override_runs: Option<u64> = std::env::var("NV_FUZZ_RUNS").ok().and_then(|s| s.parse().ok());
+            let runs_for = |t: &str| -> u64 {
+                let base = match t {
+                    "ids" => 2_000_000,
+                    "rle" | "frame" => 1_500_000,
+                    "wal" => 600_000,
+                    "csnap" => 300_000,
+                    _ => 150_000,
+                };
+                override_runs.unwrap_or(base) * cfg.scale_pct / 100
+            };
             let build = std::process::Command::new("cargo")
-                .args(["+nightly", "fuzz", "build"])
+                .args(["+nightly", "fuzz", "build", "--fuzz-dir"])
+                .arg(&proj)
                 .current_dir(&proj)
                 .env_remove("RUSTFLAGS")
                 .env_remove("CARGO_ENCODED_RUSTFLAGS")
@@ -543,11 +555,14 @@ pub fn fuzz_part() -> CustomPart {
             }
             let scratch = nv_engine::scratch::Dir::new("c20fuzz");
             let outcomes: std::sync::Mutex<Vec<(usize, serde_json::Value, Vec<Vec<u8>>)>> = std::sync::Mutex::new(Vec::new());
+            let passed: std::sync::Mutex<Vec<u64>> = std::sync::Mutex::new(Vec::new());
             std::thread::scope(|sc| {
                 for (ti, t) in TARGETS.iter().enumerate() {
                     let proj = &proj;
                     let scratch = &scratch;
                     let outcomes = &outcomes;
+                    let passed = &passed;
+                    let runs = runs_for(t);
                     sc.spawn(move || {
                         let corpus = scratch.join(&format!("corpus-{t}"));
                         let arts = scratch.join(&format!("artifacts-{t}"));
@@ -560,12 +575,14 @@ pub fn fuzz_part() -> CustomPart {
                         }
                         let seed = (cfg.seed % 0xffff_fffe) + 1;
                         let out = std::process::Command::new("cargo")
-                            .args(["+nightly", "fuzz", "run", t])
+                            .args(["+nightly", "fuzz", "run", "--fuzz-dir"])
+                            .arg(proj)
+                            .arg(t)
                             .arg(&corpus)
                             .arg("--")
                             .arg(format!("-runs={runs}"))
                             .arg(format!("-seed={seed}"))
-                            .args(["-len_control=0", "-max_len=4096", "-rss_limit_mb=8192", "-malloc_limit_mb=8192", "-print_final_stats=1"])
+                            .args(["-len_control=0", "-max_len=4096", "-rss_limit_mb=8192", "-malloc_limit_mb=8192", "-print_final_stats=1", "-max_total_time=1500"])
                             .arg(format!("-artifact_prefix={}/", arts.display()))
                             .current_dir(proj)
                             .env_remove("RUSTFLAGS")
@@ -599,12 +616,34 @@ pub fn fuzz_part() -> CustomPart {
                             },
                             Err(e) => info["error"] = json!(e.to_string()),
                         }
+                        // inputs the campaign kept: re-run through the in-binary oracle (non-triviality
+                        // of what libFuzzer reached; a failure here is handled like a crash artifact)
+                        let mut kept = 0u64;
+                        if let Ok(rd) = std::fs::read_dir(&corpus) {
+                            let mut files: Vec<_> = rd.filter_map(|e| e.ok()).map(|e| e.path()).collect();
+                            files.sort();
+                            for p in files.into_iter().take(20_000) {
+                                if let Ok(b) = std::fs::read(&p) {
+                                    kept += 1;
+                                    let mut obs = Obs::default();
+                                    let r = oracle::run_target(t, &b, &mut obs);
+                                    if obs.passed_prefix {
+                                        passed.lock().unwrap().push(nv_engine::fnv64(&b) ^ nv_engine::fnv64(t.as_bytes()));
+                                    }
+                                    if r.is_err() {
+                                        crashes.push(b);
+                                    }
+                                }
+                            }
+                        }
+                        info["corpus_files_after"] = json!(kept);
                         outcomes.lock().unwrap().push((ti, info, crashes));
                     });
                 }
             });
             let mut outcomes = outcomes.into_inner().unwrap();
             outcomes.sort_by_key(|o| o.0);
+            stats.nontrivial.extend(passed.into_inner().unwrap());
             let mut violation = None;
             let mut infos = Vec::new();
             for (ti, info, crashes) in outcomes {
